@@ -12,12 +12,13 @@ import itertools
 import json
 
 DRIVERS = ["drv_c17"]
-RULE = ("histories of add/remove/copy over signed names; exhaustive BFS over 3 names up to observable-state "
+RULE = ("histories of add/remove/copy over signed names that are substrings/prefixes/dotted extensions of one another "
+        "(p, p1, tank.p, ab, a, b); exhaustive BFS over 3 names (and, shallower, 4 names) up to observable-state "
         "equivalence (every admissible op from every distinct reachable state up to the depth bound), then random "
         "histories over 6 names and up to 3 objects; a case is one history prefix; non-trivial = at least one "
         "effective add (two classes merged); distinct = distinct history")
 TRUSTED = ["value semantics for the shared Python set objects of `_aliases` (exercised: copies and sources evolve separately in the random histories)"]
-ASSUMPTIONS = ["names are plain identifiers (no leading '-' in the base name)",
+ASSUMPTIONS = ["names are Modelica component references (identifiers, possibly dotted; no leading '-' in the base name)",
                "histories never relate a variable to its own negation (the property's precondition); such adds are skipped by the generator and counted"]
 
 
@@ -274,11 +275,16 @@ def run(ctx):
     for c in corpus.load("C17"):
         ctx.count("corpus")
         check_history(ctx, c["hist"], c["univ"], c["nobj"], drv)
-    nstates, closed = bfs(ctx, drv, ["a", "b", "c"], 4 if quick else 7)
+    # names in substring / prefix / dotted relation to one another: the class structure must depend on equality
+    # of names only (a remove of `p1` or `tank.p` must not touch the class of `p`)
+    nstates, closed = bfs(ctx, drv, ["p", "p1", "tank.p"], 4 if quick else 7)
     ctx.extra["bfs_states"] = nstates
     ctx.extra["bfs_closed_under_all_ops"] = closed
     ctx.extra["exhaustive"] = False
-    univ = ["u", "v", "w", "x", "y", "z"]
+    # two non-trivial classes need four names: a second, shallower exhaustive exploration
+    n4, _ = bfs(ctx, drv, ["p", "p1", "tank.p", "ab"], 3 if quick else 4)
+    ctx.extra["bfs_states_4_names"] = n4
+    univ = ["p", "p1", "tank.p", "ab", "a", "b"]
     n = 600 if quick else 30000
     for i in range(n):
         if ctx.time_left() < 0:
